@@ -19,6 +19,20 @@
 //	         permission callers) and pure IsAllowed/CanCall against the
 //	         property's predicate.
 //
+// Extensions (author round; DESIGN.md 7.4 style summary in the files themselves):
+//
+//	universal - every execution in a VM the check owns: flags never grow along
+//	         the invocation stack (ext_universal_test.go, hook in exec_test.go).
+//	verif / badflags - contexts created under the Verification trigger; flags
+//	         arguments outside the sixteen sets (ext_ctx_test.go).
+//	names / json-desc / trusts - method-name alphabet, overloads with a safe and
+//	         a non-safe arity, textual descriptor forms, fields that must not
+//	         matter (ext_names_test.go).
+//	upd-caller / upd-callee / forged / staged - manifests that change: update
+//	         histories in two hardfork eras, forged group membership, natives
+//	         and native methods appearing with hardforks (ext_update_test.go).
+//	entry context "oracle" - the permission matrix inside an oracle callback.
+//
 // Findings so far: permission:group-kind-ignores-method-list (fixed in /repo,
 // 3af48b5); flags:native-calls-contract-without-AllowCall:* (known finding,
 // see FINDING-native-callback-without-allowcall.md).
@@ -517,6 +531,9 @@ func (w *world) safeUSpecs() []*opSpec {
 		{"[loadscript-call-UB[put]]", []any{[]any{chainx.OpLoadScript, callPut, 15, []any{}}}},
 		{"[try[put]]", []any{[]any{chainx.OpTry, []any{put}, []any{}}}},
 		{"[try[run-UB[put,throw]]]", []any{[]any{chainx.OpTry, []any{[]any{chainx.OpRun, ub, 15, []any{put, []any{chainx.OpThrow}}}}, []any{}}}},
+		{"[try[run-UB[put]]]", []any{[]any{chainx.OpTry, []any{[]any{chainx.OpRun, ub, 15, []any{put}}}, []any{}}}},
+		{"[try[run-UB[notify]],throw]", []any{[]any{chainx.OpTry, []any{[]any{chainx.OpRun, ub, 15, []any{[]any{chainx.OpNotify, 2}}}, []any{chainx.OpThrow}}, []any{}}}},
+		{"[try[GAS.transfer-with-callback[put]]]", []any{[]any{chainx.OpTry, []any{[]any{chainx.OpCall, nativehashes.GasToken.BytesBE(), "transfer", 15, []any{w.UA.BytesBE(), ub, 1, []any{put}}}}, []any{}}}},
 	}
 	s := &opSpec{Op: "safe:U.runSafe", Group: "u", Self: w.UA, Method: "runSafe", Safe: true, Paths: []string{"direct", "viaAreq", "token"}, TokFam: "UArunSafe"}
 	for _, p := range progs {
@@ -548,6 +565,12 @@ func TestCheck(t *testing.T) {
 		os.Exit(3)
 	}
 	defer w.n.Close()
+	if _, missingSys := w.sysSpecs(); len(missingSys) > 0 {
+		// not a finding about the tree but a hole in the check: a system call was added (or renamed) and
+		// the menu has no operation that exercises it - refuse to report anything until the menu knows it
+		fmt.Printf("CHECK-ERROR: C16 menu is incomplete: system calls registered in pkg/core/interops.go that no operation of the menu issues: %v (add a method to rawMethods() and arguments to sysArgs() in checks/c16)\n", missingSys)
+		os.Exit(3)
+	}
 	cap := vk.Pick(r, 1500, 200000)
 	en := &engine{r: r, w: w, comp: map[string]*compRow{}, vio: map[string]int{}, allVio: map[string]int{}, states: vk.NewSet()}
 
@@ -572,15 +595,10 @@ func TestCheck(t *testing.T) {
 
 	// -- sub-checks flags + safe
 	specs := w.uSpecs()
-	sys, missingSys := w.sysSpecs()
-	if len(missingSys) > 0 {
-		// not a finding about the tree but a hole in the check: a system call was added
-		// (or renamed) and the menu has no operation that exercises it
-		fmt.Printf("CHECK-ERROR: C16 menu is incomplete: system calls registered in pkg/core/interops.go that no operation of the menu issues: %v (add a method to rawMethods() and arguments to sysArgs() in checks/c16)\n", missingSys)
-		os.Exit(3)
-	}
+	sys, _ := w.sysSpecs()
 	specs = append(specs, sys...)
 	specs = append(specs, w.safeUSpecs()...)
+	specs = append(specs, w.vfSpecs()...)
 	nat := w.nativeSpecs(cap)
 	specs = append(specs, nat...)
 	var jobs []job
@@ -666,10 +684,22 @@ func TestCheck(t *testing.T) {
 	for f := 0; f < 16; f++ {
 		byFlag[fname(f)] = fmt.Sprintf("HALT %d / FAULT %d", en.byFlag[f][0].Get(), en.byFlag[f][1].Get())
 	}
+	asInt := func(v any) int {
+		switch x := v.(type) {
+		case int:
+			return x
+		case int64:
+			return int(x)
+		}
+		return 0
+	}
+	// executions of the extension families (each one runs the real code)
+	extRuns := asInt(verifInfo["cases"]) + asInt(verifInfo["runs_on_VerifyWitness_VerifyTx"]) + asInt(verifInfo["cases_in_blocks"]) + asInt(badInfo["cases"]) + asInt(updInfo["cells_total"])
 	cov := map[string]any{
 		"states":                                      en.states.Len() + len(ccs) + int(ps.pure+ps.namesPure),
-		"transitions":                                 int(en.execs.Get()) + chainDone + int(ps.real+ps.block+ps.token+ps.entry+ps.names) + btxs,
-		"traces_validated_against_impl":               int(en.execs.Get()) + chainDone + int(ps.real+ps.block+ps.token+ps.entry+ps.pure+ps.names+ps.namesPure),
+		"transitions":                                 int(en.execs.Get()) + chainDone + int(ps.real+ps.block+ps.token+ps.entry+ps.names) + btxs + extRuns,
+		"traces_validated_against_impl":               int(en.execs.Get()) + chainDone + int(ps.real+ps.block+ps.token+ps.entry+ps.pure+ps.names+ps.namesPure) + extRuns,
+		"extension_family_executions":                 extRuns,
 		"flag_sets":                                   16,
 		"operations":                                  len(specs),
 		"operations_native_methods":                   len(nat),
@@ -707,6 +737,9 @@ func TestCheck(t *testing.T) {
 		"test invocations carry unverified signers (validator/committee and accounts 1..5, Global scope) and an OracleResponse attribute so that witness- and attribute-guarded native methods can succeed",
 		"all hardforks are enabled from genesis",
 		"native argument menus are type-directed (not name-directed); methods whose product exceeds the cap use the documented reduction (see methods_with_capped_arguments)",
+		"verification contexts are expected to hold ReadStates|AllowCall at most (protocol rule the tree implements in InitVerificationContext; the property text itself only says that code without a flag cannot have the effect)",
+		"flags arguments outside 0..15 whose low byte is a valid flag set are accepted by the tree (truncated to the low byte); they are judged by 'flags never grow' only and counted (invalid_flag_values)",
+		"in the same context right after a contract updated itself, the permissions of the executing contract state apply from hardfork Domovoi on and those of the stored state before (documented in pkg/config/hardfork.go); everywhere else the updated manifest applies at once",
 		"caches of native contracts inside the DAO are not compared, only contract storage",
 	})
 }
@@ -952,7 +985,7 @@ func runPerm(r *vk.Run, ps *permStats) map[string]any {
 	info["entry_context_cells_by_subcheck"] = er.st.byCtx
 	info["entry_context_cells_not_applicable"] = er.st.na
 	info["entry_context_blocks"] = er.st.blocks
-	info["entry_contexts"] = "app (ordinary method), init (_initialize), payment (onNEP17Payment called by GAS.transfer), deploy (_deploy of a new instance), update (_deploy(isUpdate) after the wildcard instance updated itself to the shape's manifest), loadscript, verify-witness (Blockchain.VerifyWitness), verify-tx (Blockchain.VerifyTx), verify-block (AddBlock); kinds: System.Contract.Call and CALLT"
+	info["entry_contexts"] = "app (ordinary method), init (_initialize), payment (onNEP17Payment called by GAS.transfer), deploy (_deploy of a new instance), update (_deploy(isUpdate) after the wildcard instance updated itself to the shape's manifest), oracle (callback called by Oracle.finish on the wildcard instance after it updated itself to the shape's manifest), loadscript, verify-witness (Blockchain.VerifyWitness), verify-tx (Blockchain.VerifyTx), verify-block (AddBlock); kinds: System.Contract.Call and CALLT"
 	info["loaded_script_flag_cells"] = er.st.loadCells
 	info["loaded_script_flag_cells_halted"] = er.st.loadHalt
 	info["loaded_script_callee_refused_witness_of_loader"] = er.st.loadWitnessRefused
@@ -1034,7 +1067,7 @@ func replay(r *vk.Run) {
 		en := &engine{r: r, w: w, comp: map[string]*compRow{}, vio: map[string]int{}, allVio: map[string]int{}, states: vk.NewSet()}
 		specs := w.uSpecs()
 		sys, _ := w.sysSpecs()
-		specs = append(append(append(specs, sys...), w.safeUSpecs()...), w.nativeSpecs(200000)...)
+		specs = append(append(append(append(specs, sys...), w.safeUSpecs()...), w.vfSpecs()...), w.nativeSpecs(200000)...)
 		found := false
 		for _, s := range specs {
 			if s.Op != fc.Op {
@@ -1075,6 +1108,14 @@ func replay(r *vk.Run) {
 			os.Exit(3)
 		}
 		replayLoad(r, lc)
+	case strings.HasPrefix(d.Sub, "names-") || d.Sub == "json-desc" || d.Sub == "trusts":
+		var nc namesCase
+		_ = r.ReadReplay(&nc)
+		replayNames(r, nc)
+	case strings.HasPrefix(d.Sub, "upd-") || d.Sub == "forged" || d.Sub == "staged":
+		var uc updCase
+		_ = r.ReadReplay(&uc)
+		replayUpd(r, uc)
 	case d.Sub == "universal-shrink":
 		var gc grewCase
 		_ = r.ReadReplay(&gc)
